@@ -53,7 +53,8 @@ def custom_classes():
     tsort t   Reordering: stable sort by descending value of column t (a user-defined sort)
     cfilt t   RowFilter: keeps rows whose value in column t is even (reads t; order independent)
     alt       RowFilter: keeps rows at even positions (order and count dependent, declared like Slice)
-    atleast n RowFilter: keeps every row if there are at least n of them, else none (count dependent, order independent)"""
+    atleast n RowFilter: keeps every row if there are at least n of them, else none (count dependent, order independent)
+    rev       Reordering: reverses the rows (order dependent, not count dependent)"""
     global _CUSTOM
     if _CUSTOM is None:
         import dataclasses
@@ -136,7 +137,16 @@ def custom_classes():
             def applied_max_rows(self, target):
                 return target.max_rows
 
-        _CUSTOM = (TotalSort, EvenFilter, Alternate, AtLeast)
+        @dataclasses.dataclass(frozen=True)
+        class Reverse(Reordering):
+            def __str__(self):
+                return "reverse"
+
+            @property
+            def is_order_dependent(self):
+                return True
+
+        _CUSTOM = (TotalSort, EvenFilter, Alternate, AtLeast, Reverse)
     return _CUSTOM
 
 
@@ -146,10 +156,10 @@ def st_op(draw, cols, universe, fixed_cols, kind=None, custom=False):
     free = [t for t in universe if t not in cols]
     ks = ["sel", "slice", "dedup", "pjoin"]
     if custom and draw(st.integers(0, 5)) == 0:
-        k = draw(st.sampled_from(["alt", "atleast"] + (["cfilt", "tsort"] if cols else [])))
+        k = draw(st.sampled_from(["alt", "atleast", "rev"] + (["cfilt", "tsort"] if cols else [])))
         if k == "atleast":
             return (k, draw(st.integers(1, 4)))
-        return (k, draw(st.sampled_from(cols))) if k != "alt" else (k,)
+        return (k, draw(st.sampled_from(cols))) if k not in ("alt", "rev") else (k,)
     if cols:
         ks += ["sort", "proj", "proj"]
         if free:
@@ -246,7 +256,7 @@ def well_formed_columns(spec, fixed_cols):
         return set(cols_p(spec[1]))
     if k == "sort":
         return set().union(*[cols_e(e) for e, _ in spec[1]]) if spec[1] else set()
-    if k in ("dedup", "slice", "alt", "atleast"):
+    if k in ("dedup", "slice", "alt", "atleast", "rev"):
         return set()
     if k in ("cfilt", "tsort"):
         return {spec[1]}
@@ -275,6 +285,8 @@ def apply_spec(spec, rows, cols, fixed_rows, fixed_cols):
         return [r for r in rows if r[spec[1]] % 2 == 0]
     if k == "alt":
         return rows[::2]
+    if k == "rev":
+        return rows[::-1]
     if k == "atleast":
         return rows if len(rows) >= spec[1] else []
     if k == "pjoin":
@@ -301,8 +313,10 @@ def to_lib(spec, fixed_rel):
         return Sort(tuple(SortTerm(lib_e(e), asc) for e, asc in spec[1]))
     if k == "slice":
         return Slice(spec[1], spec[2])
+    if k == "rev":
+        return custom_classes()[4]()
     if k in ("tsort", "cfilt", "alt"):
-        TotalSort, EvenFilter, Alternate, AtLeast = custom_classes()
+        TotalSort, EvenFilter, Alternate, AtLeast, Reverse = custom_classes()
         return TotalSort(spec[1]) if k == "tsort" else Alternate() if k == "alt" else EvenFilter(spec[1])
     if k == "atleast":
         return custom_classes()[3](spec[1])
@@ -317,7 +331,9 @@ def from_lib(op, fixed_rel):
 
     if isinstance(op, Identity):
         return ("ident",)
-    TotalSort, EvenFilter, Alternate, AtLeast = custom_classes()
+    TotalSort, EvenFilter, Alternate, AtLeast, Reverse = custom_classes()
+    if isinstance(op, Reverse):
+        return ("rev",)
     if isinstance(op, AtLeast):
         return ("atleast", op.n)
     if isinstance(op, TotalSort):
@@ -354,6 +370,8 @@ def fmt_spec(s):
         return f"custom-reordering(stable sort by -{s[1]})"
     if k == "alt":
         return "custom-filter(rows at even positions)"
+    if k == "rev":
+        return "custom-reordering(reverse)"
     if k == "atleast":
         return f"custom-filter(all rows if at least {s[1]})"
     if k == "pjoin":
@@ -536,7 +554,7 @@ def exhaustive(tier, stats, shard, nshards, run):
     ]
     fixed = ("L1", (A, D), ((0, 7), (1, 8), (2, 9), (2, 6)), 1, "data", (4, 4), "plain")
     g = grid()
-    customs = [("tsort", A), ("tsort", C), ("alt",), ("cfilt", A), ("cfilt", C), ("atleast", 3), ("atleast", 5)]
+    customs = [("tsort", A), ("tsort", C), ("alt",), ("cfilt", A), ("cfilt", C), ("atleast", 3), ("atleast", 5), ("rev",)]
     identity = ("L1", (), ((),), 1, "data", (1, 1), "plain")
     idjoins = [("pjoin", False, ("ge", ("ref", A), ("lit", 1))), ("pjoin", True, ("eq", ("ref", B), ("ref", C))), ("pjoin", False, None)]
     idx = 0
